@@ -26,6 +26,7 @@ type Profile struct {
 	TmoMax   int
 	Staking  bool
 	Drain    bool // always end with the capacity drain phase
+	Crowd    bool // 30-48 providers, large replica counts
 }
 
 var baseWeights = map[string]float64{
@@ -66,6 +67,10 @@ func getProfile(name string) *Profile {
 		return &Profile{Name: name, Horizon: [2]int{200, 1300}, W: cloneW(baseWeights, map[string]float64{"report": 14, "recover": 10, "store_new": 10, "complete": 20}), AdvRate: 0.05, Silence: 0.05, TmoMax: 25}
 	case "did":
 		return &Profile{Name: name, Horizon: [2]int{80, 260}, W: cloneW(baseWeights, map[string]float64{"did_bind": 22, "did_update": 9, "sid_payaddr": 6, "set_payaddr": 6, "store_new": 3, "complete": 4, "adv": 1, "report": 0, "recover": 0}), AdvRate: 0.05, Silence: 0.1, DupRate: 0.08, TmoMax: 25}
+	case "crowd":
+		// many providers, orders that ask for nearly as many replicas as there are eligible providers:
+		// the seeded selection has to draw until its seed is used up
+		return &Profile{Name: name, Horizon: [2]int{40, 110}, Crowd: true, W: cloneW(baseWeights, map[string]float64{"store_new": 12, "complete": 10, "store_update": 2, "renew": 1, "migrate": 2, "report": 0, "recover": 0, "adv": 1}), AdvRate: 0.03, Silence: 0.3, TmoMax: 12}
 	case "capacity":
 		// providers only: capacity is added, withdrawn in odd sizes and finally drained completely, with
 		// rewards accruing and being claimed in between; no storage orders at all
@@ -90,6 +95,9 @@ func DrawConfig(seed uint64, prof *Profile) Config {
 	c.NSPs = r.Range(2, 9)
 	if r.Chance(0.15) {
 		c.NSPs = r.Range(10, 24)
+	}
+	if prof.Crowd {
+		c.NSPs = r.Range(30, 48)
 	}
 	c.NFishmen = r.Range(0, 3)
 	if prof.Name == "faults" {
@@ -166,7 +174,7 @@ func NewGen(e *Env, prof *Profile) *Gen {
 	g.regenAt = g.r.Range(g.horizon/5, g.horizon*9/10)
 	g.drain = g.r.Chance(0.2) || prof.Drain
 	g.chaseRoll = NewRng(e.W.Cfg.Seed).Sub("chaseroll").Chance(0.15)
-	g.runout = prof.Long && NewRng(e.W.Cfg.Seed).Sub("runout").Chance(0.3)
+	g.runout = prof.Long && NewRng(e.W.Cfg.Seed).Sub("runout").Chance(0.5)
 	if NewRng(e.W.Cfg.Seed).Sub("chase12").Chance(0.25) {
 		g.chase12 = 3
 	}
@@ -293,20 +301,24 @@ func (g *Gen) Next() *Step {
 		// model lifetime have ended, so that every end-of-life housekeeping path is executed
 		g.runout = false
 		last := uint64(0)
+		lim := uint64(h) + 9000 // the latest end of a paid term or model lifetime within reach
 		for _, sh := range e.Cur.Order.Shards {
 			if sh.Status != ordertypes.ShardCompleted {
 				continue
 			}
 			end := sh.CreatedAt + sh.Duration
+			if end > last && end < lim {
+				last = end
+			}
 			for _, ri := range sh.RenewInfos {
 				end += ri.Duration
-			}
-			if end > last {
-				last = end
+				if end > last && end < lim {
+					last = end
+				}
 			}
 		}
 		for _, m := range e.Cur.Model.Metas {
-			if end := m.CreatedAt + m.Duration; end > last && end < uint64(h)+20000 {
+			if end := m.CreatedAt + m.Duration; end > last && end < lim {
 				last = end
 			}
 		}
@@ -660,9 +672,9 @@ func (g *Gen) genKind(k string) *Op {
 			}
 		}
 		op := &Op{K: "store", A: gw.Idx, Own: owner.Idx + 1, D: d, Mode: "new", Rep: int32(r.Range(1, 3)), Dur: g.drawDur(), Tmo: g.drawTmo(), Size: g.sizes()}
-		if r.Chance(0.06) {
+		if r.Chance(0.06) || (g.p.Crowd && r.Chance(0.4)) {
 			op.Rep = int32(r.Range(4, 30))
-			if len(w.SPs) >= 12 && r.Chance(0.6) {
+			if len(w.SPs) >= 12 && r.Chance(0.6) || g.p.Crowd {
 				// nearly as many replicas as there are eligible providers: the seeded selection has
 				// to draw many times (and may use up its seed)
 				need := nodetypes.NODE_STATUS_ONLINE | nodetypes.NODE_STATUS_SERVE_STORAGE | nodetypes.NODE_STATUS_ACCEPT_ORDER
@@ -1307,7 +1319,11 @@ func (g *Gen) vsize() int64 {
 
 func (g *Gen) drawDur() uint64 {
 	r := g.r
-	switch r.Pick([]float64{5, 3, 1}) {
+	w := []float64{5, 3, 1}
+	if g.p.Long {
+		w = []float64{3, 3, 2} // more terms above the minimum, so that renewals are often shorter than the term they follow
+	}
+	switch r.Pick(w) {
 	case 0:
 		return 3600
 	case 1:
